@@ -92,6 +92,18 @@ def check(run):
                 bad = bad or ("effect", "refused request `%s` changed the state" % ops[i][:60], ops[:i + 1])
             if k == "get" and "msgs=" in gl[i] and r.get("msgs", "0") not in ("0", ""):
                 bad = bad or ("leak", "refused GetMessages `%s` returned messages" % ops[i][:60], ops[:i + 1])
+        # a session that does not exist yet cannot be read either: GET for the id the next session will get,
+        # with a made-up secret, while that session is being created (ids are raft indexes, hence guessable)
+        fops = ["getfuture bogus 900", "getfuture %s 900" % ("ab" * 64)]
+        fl, ferr = api_run.run_ops(exe, list(api_run.BOOT) + ["create a"] + fops, tag="c11f")
+        evals += len(fops)
+        for o, g in zip(fops, fl[-len(fops):] if not ferr else []):
+            r = kv(g)
+            if r.get("hit") == "true" and r.get("get") == "200":
+                bad = bad or ("future", "GET for a session that did not exist yet, with a made-up secret, was answered 200 once the session was created (%s)" % g,
+                              list(api_run.BOOT) + ["create a", o])
+        if ferr:
+            bad = bad or ("harness", ferr, fops)
         for (i, m, p, pw) in priv:
             st = int(kv(gl[i]).get("status", -1))
             if pw != PW and st != 401:
